@@ -53,6 +53,8 @@ HISTORIES = [
     ("failed-then-new-bad", ["run", ("c", False, False, None), "run", ("c", False, False, None)]),
     # a good commit is pushed while the disturbed run compiles (by the stub compiler, once)
     ("commit-during-compile", ["run", ("c", True, True, None), "pushflag"]),
+    # the same while a commit that does NOT compile (and can be reverted) is compiled: the revert must hit that commit
+    ("bad-commit-push-during-compile", ["run", ("c", False, True, None), "pushflag"]),
 ]
 
 
@@ -102,7 +104,7 @@ def run(tier, replay_file=None):
     jobs = []
     for name, _, n in prepared:
         full = tier == "thorough" or name in ("first-policy", "good-commit", "bad-commit-revertable", "failed-then-new-bad",
-                                              "commit-during-compile")
+                                              "commit-during-compile", "bad-commit-push-during-compile")
         for k in range(1, n + 1):
             if full or k % 3 == C.seed() % 3:
                 jobs.append({"hist": name, "kill": k, "kill2": 0})
@@ -156,7 +158,7 @@ def run(tier, replay_file=None):
         ev.append({"t": tid, "ev": "RunEnd", "inst": 1, "rc": rc})
         st = w.state()
         ev.append({"t": tid, "ev": "Final", "cur": num(st["cur"]), "curContent": st["curContent"], "head": st["head"],
-                   "headGood": st["headGood"], "curBefore": cur_before, "rc": rc})
+                   "headGood": st["headGood"], "best": st["best"], "curBefore": cur_before, "rc": rc})
         shutil.rmtree(w.dir, ignore_errors=True)
         return ev
 
@@ -168,27 +170,45 @@ def run(tier, replay_file=None):
     C.tlc_ok(res, "NewPolicyTrace")
     rep.add_states(res)
     seen = set()
+    unrepro, reproduced = [], 0
     for v in res.verr:
         _, tid, step, tag, detail, kf = v[:6]
         if (tid, detail) in seen:
             continue
         seen.add((tid, detail))
+        if reproduced >= 8:
+            break          # enough reproduced failures to report; every further one costs up to four runs
         if kf and kf in rep.kf:
             rep.known[kf] = rep.known.get(kf, 0) + 1
             continue
         job = jobs[tid - 1]
         if not replay_file:
-            ev2 = one((0, job))
-            p2 = os.path.join(root, "rerun.ndjson")
-            C.write_ndjson(p2, ev2)
-            res2 = C.run_tlc(SPEC, "NewPolicyTrace", "NewPolicyTrace.cfg", env={"TRACE": p2}, timeout=300)
-            if not res2.verr:
-                raise C.Broken("failure of job %s not reproduced on re-run: %s" % (job, detail))
+            # the position of a kill is counted in simple commands; a script whose command count depends on timing
+            # (e.g. on whether two git commits fall into the same second) does not hit the same spot every time:
+            # the failure has to show a second time within three further runs of the same job
+            again = False
+            for _ in range(3):
+                ev2 = one((0, job))
+                p2 = os.path.join(root, "rerun.ndjson")
+                C.write_ndjson(p2, ev2)
+                res2 = C.run_tlc(SPEC, "NewPolicyTrace", "NewPolicyTrace.cfg", env={"TRACE": p2}, timeout=300)
+                if any(x[4] == detail for x in res2.verr):
+                    again = True
+                    break
+            if not again:
+                # not a verdict; the check is broken only if NO failure of this run could be reproduced
+                unrepro.append("failure of job %s not reproduced in three further runs: %s" % (job, detail))
+                continue
+            reproduced += 1
         kcmd = [e for e in results[tid - 1] if e["ev"] == "Cmd" and e.get("n") == job["kill"]]
         rep.known_or_violation("", "%s\n  history %s, killed before command %s (%s)%s" % (
             detail, job["hist"], job["kill"], kcmd[0]["cmd"] if kcmd else "-",
             ", then before command %s of the next run" % job["kill2"] if job["kill2"] else ""),
             {"property": "C19", "job": job})
+    if unrepro and not reproduced:
+        raise C.Broken(unrepro[0])
+    if unrepro:
+        rep.notes.append("%d further failures were not reproduced and are not reported, e.g. %s" % (len(unrepro), unrepro[0]))
     rep.cov.update({
         "traces_validated_against_impl": len(jobs), "script_runs": sum(1 + bool(j["kill"]) + bool(j["kill2"]) for j in jobs),
         "histories": [h for h, _ in hists], "kill_points": len([j for j in jobs if j["kill"]]),
